@@ -8,3 +8,49 @@ type ClassNode struct {
 }
 
 var ClassInheritanceMap = make(map[ClassNode][]ClassNode)
+
+// isAncestorClassNode reports whether target can be reached from node by following
+// parent edges (frame and class only; include/extend flags do not matter here).
+func isAncestorClassNode(node, target ClassNode, visited map[ClassNode]bool) bool {
+	key := ClassNode{Frame: node.Frame, Class: node.Class}
+
+	if visited[key] {
+		return false
+	}
+
+	visited[key] = true
+
+	for _, parentNode := range ClassInheritanceMap[key] {
+		if parentNode.Frame == target.Frame && parentNode.Class == target.Class {
+			return true
+		}
+
+		if isAncestorClassNode(parentNode, target, visited) {
+			return true
+		}
+	}
+
+	return false
+}
+
+// AppendParentClassNode records parentNode as a parent of classNode. An edge that
+// already exists, or that would make a class its own ancestor (class A < A, mutually
+// including modules, ...), is ignored: method and variable lookups walk this graph
+// recursively and must terminate.
+func AppendParentClassNode(classNode, parentNode ClassNode) {
+	for _, node := range ClassInheritanceMap[classNode] {
+		if node == parentNode {
+			return
+		}
+	}
+
+	if parentNode.Frame == classNode.Frame && parentNode.Class == classNode.Class {
+		return
+	}
+
+	if isAncestorClassNode(parentNode, classNode, map[ClassNode]bool{}) {
+		return
+	}
+
+	ClassInheritanceMap[classNode] = append(ClassInheritanceMap[classNode], parentNode)
+}
